@@ -83,6 +83,10 @@ pub fn gen_name(rng: &mut Rng, len: usize, earlier: &[Pair]) -> Vec<u8> {
             v.push(*rng.pick(b"abcdefXYZ_"));
         }
     }
+    // "XI" (any case) is the harness's own marker variable (handler.rs picks its script by it)
+    if v.eq_ignore_ascii_case(b"XI") {
+        v[0] = b'Y';
+    }
     v
 }
 
@@ -244,6 +248,37 @@ pub fn foreign_id(rng: &mut Rng, own: u16) -> u16 {
 }
 
 /// Body for a GetValues query whose individual pairs stay within `max_pair` bytes.
+/// Unknown variable names that a sloppy matcher could take for a known one: wrong case, padded with
+/// white space, prefixes / extensions, several known names joined by separators, numeric forms.
+pub fn near_miss_var_name(rng: &mut Rng) -> Vec<u8> {
+    let k = *rng.pick(&wire::KNOWN_VARS);
+    let k2 = *rng.pick(&wire::KNOWN_VARS);
+    let s = match rng.below(16) {
+        0 => "FCGI_UNKNOWN_VAR".to_string(),
+        1 => k.to_ascii_lowercase(),
+        2 => format!("{k} "),
+        3 => format!(" {k}"),
+        4 => format!("{k}|{k2}"),
+        5 => format!("{k} | {k2}"),
+        6 => format!("{k},{k2}"),
+        7 => k[..k.len() - 1].to_string(),
+        8 => format!("{k}S"),
+        9 => format!("{k}\0"),
+        10 => ["0x07", "0x1", "7", "1", "0"][rng.below(5)].to_string(),
+        11 => k.replace('_', "-"),
+        12 => k.trim_start_matches("FCGI_").to_string(),
+        13 => format!("\t{k}\n"),
+        14 => {
+            let mut c: Vec<char> = k.chars().collect();
+            let i = rng.below(c.len());
+            c[i] = c[i].to_ascii_lowercase();
+            c.into_iter().collect()
+        }
+        _ => "FCGI_".to_string(),
+    };
+    s.into_bytes()
+}
+
 pub fn gen_getvalues_body(rng: &mut Rng, max_pair: usize) -> Vec<u8> {
     let mut body = Vec::new();
     let n = 1 + rng.below(5);
@@ -251,7 +286,7 @@ pub fn gen_getvalues_body(rng: &mut Rng, max_pair: usize) -> Vec<u8> {
         let (name, value): (Vec<u8>, Vec<u8>) = match rng.below(10) {
             0..=4 => (rng.pick(&wire::KNOWN_VARS).as_bytes().to_vec(), Vec::new()),
             5 => (rng.pick(&wire::KNOWN_VARS).as_bytes().to_vec(), rng.rbytes(5)), // value-carrying
-            6 => (b"FCGI_UNKNOWN_VAR".to_vec(), Vec::new()),
+            6 => (near_miss_var_name(rng), Vec::new()),
             7 => (vec![0xff, b'F', 0xc3], Vec::new()), // non-UTF-8 name
             8 => (Vec::new(), Vec::new()),
             _ => {
